@@ -164,3 +164,14 @@ def run_case(ctx, rng, index, casedir):
     M.CTX.clear()
     return {"sigs": sigs, "evals": max(evals, 1), "situations": dict(sit), "violations": viol,
             "sample": {"records": len(recs), "cores": cores, "first": lines[0][:200]}}
+
+
+def finish(ctx):
+    """thorough tier, shard 0 only: the non-gating ASan/UBSan run of the aligner (DESIGN section 4)"""
+    if ctx.tier != "thorough" or ctx.shard != 0:
+        return None
+    from vf import asan_pywfa
+    try:
+        return {"native_sanitizer": asan_pywfa.run(300, ctx.seed)}
+    except Exception as e:  # noqa: BLE001
+        return {"native_sanitizer": {"status": "unavailable", "reason": repr(e)}}
